@@ -121,4 +121,5 @@ REG.add(Contract(F_CP, 'ConfigParser._init_config_parser',
     requires=_additions_have_values, result=T.Obj('RawCP'), ensures=_post,
     post_names=['well-formed', 'file-then-overrides-in-order-then-additions-in-order', 'every-override-found-its-item', 'every-addition-was-new'],
     invariants={0: _inv0, 1: _inv1}, raises_when=_raises, on_raise=lambda v, old: [], instantiate_int_foralls=True, definitions=model_axioms,
+    raises_classes=['ConfigOverrideException', 'ConfigOverrideDuplicateException', 'ConfigParserDuplicateEntryException', 'ConfigParserException'],
     carries=['post', 'preserve/0', 'preserve/1', 'raises'], props=['C14', 'C16']))
